@@ -12,6 +12,7 @@ import (
 	"verif/harness/internal/graph"
 	"verif/harness/internal/sched"
 	"verif/harness/internal/taskrun"
+	"verif/harness/internal/timed"
 )
 
 type engine func(env *core.Env, rep *core.Report) *core.Result
@@ -21,6 +22,7 @@ var engines = map[string]engine{
 	"C05": graph.Check,
 	"C06": taskrun.CheckC06, "C07": taskrun.CheckC07,
 	"C12": cancel.Check,
+	"C13": timed.Check,
 }
 
 // c03: the scheduler engine plus the cancelled runs with the real TaskRunner (cancel engine).
